@@ -678,6 +678,7 @@ func (a *Act) lookup(st *State, x *ssa.Lookup) Val {
 	m := a.val(st, x.X)
 	k := a.val(st, x.Index)
 	if mt, ok := m.T.Underlying().(*types.Map); ok {
+		a.checkGuard(st, m.Guard, false, "guarded map", x.Pos())
 		k = a.convKey(st, k, mt.Key())
 		dk, ds, vk, vs, _, _ := a.mapHeaps(st, mt)
 		dom := sel(vc.getHeap(st, dk, ds), m.S)
@@ -721,6 +722,7 @@ func (a *Act) mapUpdate(st *State, m, k, v Val, pos token.Pos) {
 		return
 	}
 	k = a.convKey(st, k, mt.Key())
+	a.checkGuard(st, m.Guard, true, "guarded map", pos)
 	if a.optOn("nilcheck") {
 		vc.oblige(a.oblName("nopanic-nilmap"), "nopanic", a.props, a.pos(pos), st.guard, not(eq(m.S, "0")), "assignment to entry in nil map")
 	} else {
@@ -741,6 +743,7 @@ func (a *Act) mapUpdate(st *State, m, k, v Val, pos token.Pos) {
 
 func (a *Act) mapDelete(st *State, m, k Val) {
 	vc := a.vc
+	a.checkGuard(st, m.Guard, true, "guarded map", token.NoPos)
 	mt := m.T.Underlying().(*types.Map)
 	k = a.convKey(st, k, mt.Key())
 	dk, ds, _, _, _, _ := a.mapHeaps(st, mt)
@@ -881,6 +884,7 @@ func (a *Act) sliceOp(st *State, x *ssa.Slice) Val {
 func (a *Act) rangeInit(st *State, x *ssa.Range) Val {
 	vc := a.vc
 	m := a.val(st, x.X)
+	a.checkGuard(st, m.Guard, false, "guarded map", x.Pos())
 	it := &iterInfo{rng: x, mapVal: m}
 	if mt, ok := m.T.Underlying().(*types.Map); ok {
 		_, _, _, _, ks, vs := a.mapHeaps(st, mt)
